@@ -24,6 +24,7 @@ RULE = (
     "in type/keysound under <, <=, >, >=, sorted/min/max. Non-trivial = >= 2 notes and one of: row count not a power of "
     "two, keysound before a later non-zero cell of its row, CRLF, >= 2 players, decoration; distinct = distinct grid JSON"
 )
+RULE += " " + 'Added after the seeding rounds: keysound indices written with leading zeros ([07] is keysound 7), measures of 250/384/768/1000 rows, free-standing pairs less than a tick apart with the later note in a lower or equal column.'
 ASSUMPTIONS = ["grid -> text renderer and expected-note computation in vf/gen_notes.py", "well-formed note data only, as the quantifier states"]
 
 OPS = {"<": operator.lt, "<=": operator.le, ">": operator.gt, ">=": operator.ge}
